@@ -18,7 +18,7 @@ ASSUMPTIONS = [
     "with-metadata listings are parsed back for hash names that Meta has a field for (md5, md5-dos2unix, etag, checksum); other names cannot be represented in that form",
 ]
 MONITORS = "projection of every entry compared before/after each persistent form"
-REQUIRED_COUNTERS = ["sqlite_lazy_roundtrips", "json_roundtrips", "db_roundtrips", "sqlite_roundtrips", "dict_roundtrips", "tree_list_roundtrips", "sqlite_root_key_cases", "falsy_field_entries"]
+REQUIRED_COUNTERS = ["same_key_histories", "sqlite_lazy_roundtrips", "json_roundtrips", "db_roundtrips", "sqlite_roundtrips", "dict_roundtrips", "tree_list_roundtrips", "sqlite_root_key_cases", "falsy_field_entries"]
 
 
 def mproj(m):
@@ -166,6 +166,42 @@ def run_shard(ctx):
                     k = order[0][0]
                     del idx[k]
                     before.pop(k)
+                # multi-step histories on one key inside one session
+                for k, e in order[1:4]:
+                    if k not in before or k == ():
+                        continue
+                    r = rng.random()
+                    if r < 0.25 and e.meta is not None:
+                        # overwrite with an entry that differs only in a serialised field that equality ignores
+                        import copy as _c
+
+                        e2 = _c.deepcopy(e)
+                        e2.meta.remote = rng.choice(["origin", "backup"]) if not e.meta.remote else None
+                        idx[k] = e2
+                        before[k] = proj(e2)
+                        res.count("same_key_histories")
+                    elif r < 0.5:
+                        # read, mutate in place, store back
+                        cur = idx[k]
+                        if cur.meta is None:
+                            cur.meta = Meta()
+                        cur.meta.size = (cur.meta.size or 0) + 7
+                        cur.loaded = True
+                        idx[k] = cur
+                        before[k] = proj(cur)
+                        res.count("same_key_histories")
+                    elif r < 0.65 and len(k) >= 2 and k[:-1] not in entries:
+                        # the parent node is dropped wholesale, then the child is stored again
+                        try:
+                            idx.delete_node(k[:-1])
+                        except KeyError:
+                            continue
+                        for kk in list(before):
+                            if kk[: len(k) - 1] == k[:-1]:
+                                before.pop(kk)
+                        idx[k] = e
+                        before[k] = proj(e)
+                        res.count("same_key_histories")
                 idx.commit()
                 if rng.random() < 0.5:
                     same = {k: proj(e) for k, e in idx.iteritems()}
